@@ -10,6 +10,7 @@ import itertools
 
 from .model import UNKNOWN, Inconclusive
 from .walk import Walker
+from .spec import MUTATING_METHODS
 
 KINDS = ("BLANK", "LEAF", "EXT", "BRANCH")
 ALLK = frozenset(KINDS)
@@ -1075,6 +1076,15 @@ class SymEngine:
                 self._bind_target(ev.node, ("with", self.ev(ev.b, f, st)), f, st)
         elif k == "return":
             st.ret = self.ev(ev.node.value, f, st) if ev.node.value is not None else C(None)
+        elif k == "call" and ev.a == "ok" and isinstance(ev.node, ast.Call) and isinstance(ev.node.func, ast.Attribute) \
+                and isinstance(ev.node.func.value, ast.Name) and ev.node.func.attr in MUTATING_METHODS:
+            # x.append(..) / x.pop() on a local that holds a literal container: its size and truthiness are no
+            # longer those of the literal
+            nm = ev.node.func.value.id
+            cur = st.env.get(nm)
+            if cur is not None and cur[0] in ("list", "dict", "set", "listcomp", "mut"):
+                base = cur[1] if cur[0] == "mut" else cur
+                st.env[nm] = ("mut", base, len(st.events))
         st.events.append(ev)
         return True
 
